@@ -349,9 +349,7 @@ def data_op(rng, q, sigs, cls=None):
     cls = cls or rng.choice(["tiny", "small", "small", "quarter", "quarter", "half", "most", "edge", "toobig"] if q > 1000 else
                             ["tiny", "tiny", "small", "quarter", "quarter", "half", "half", "most", "edge", "toobig"])
     pay = max(0, payload_for(rng, q, cls))
-    # the C08 defect class (message size within 8 bytes of the capacity) is not the subject here: stay clear of it
-    if q - 8 < pay + HDR <= q:
-        pay = q - HDR - 8
+    # sizes in (capacity-8, capacity] are refused by jls_mrb_alloc like larger ones (C08, repaired in /repo): included
     kind = rng.choice(["fsr", "fsr", "fsr", "ud", "ann"])
     if kind == "fsr" and sigs:
         gid, dt = rng.choice(sigs)
@@ -442,6 +440,7 @@ DEFECT_CORPUS = [
     ("sigdef_id_260", 4096, "|src 1;sig 1 1 f32 100 10 10 10;sig 260 1 u8 100 10 10 10;fsr 1 50;fsr 1 50;close|-|", SIG_OOB_INDEX),
     ("sigdef_id_9000", 4096, "|src 1;sig 1 1 f32 100 10 10 10;sig 9000 1 u8 100 10 10 10;fsr 1 50;close|-|", SIG_OOB_INDEX),
     ("fsr_undefined_signal", 4096, "|src 1;sig 1 1 f32 100 10 10 10;fsr 9 50;fsr 1 50;close|-|", SIG_UNINIT_SIZE),
+    ("utc_error_logs_message_str_6", 4096, "|src 1;sig 1 1 f32 100 10 10 10;utc 9 5 100;fsr 1 10;close|-|", SIG_MSG_STR),
     ("sigdef_dup_other_type", 4096, "|src 1;sig 1 1 f32 100 10 10 10;sig 1 1 u8 100 10 10 10;fsr 1 50;fsr 1 50;close|-|", SIG_FAILED_DEF_SIZE),
 ]
 
